@@ -27,11 +27,11 @@ from ..tlc import cfg
 
 NEEDS_EXT = True
 
-ALL_ACTS = {"open", "hwrite", "hread", "hclose", "create", "overwrite", "append", "appendbad", "appendmissing",
+ALL_ACTS = {"open", "hwrite", "hread", "hclose", "hdrop", "create", "overwrite", "append", "appendbad", "appendmissing",
             "read", "readhdr"}
 WRITE_ACTS = ALL_ACTS - {"read", "readhdr"}
-HANDLE_ACTS = {"open", "hwrite", "hread", "hclose", "append", "appendbad", "read"}
-REQUIRE = ["MOpen", "MHWrite", "MHRead", "MHClose", "MCreate", "MOverwrite", "MAppendCompatible",
+HANDLE_ACTS = {"open", "hwrite", "hread", "hclose", "hdrop", "append", "appendbad", "read"}
+REQUIRE = ["MOpen", "MHWrite", "MHRead", "MHClose", "MHDrop", "MCreate", "MOverwrite", "MAppendCompatible",
            "MAppendIncompatible", "MAppendMissing", "MReadBack", "MReadHeader"]
 PROPS = dict(invariants=["SizeInv", "HandleInv", "ReadInv", "ConcatInv"], properties=["AppendsAccumulate", "FrameProp"])
 
@@ -57,6 +57,7 @@ TIERS = {
                       consts=dict(Paths={1, 2}, Handles={1, 2}, ChunkIds=CHUNKS8, Hdrs={"none", "h1", "h2"},
                                   Delims={"none", "c", "t", "s"}, Modes=MODES)),
         random=800,
+        scale=16,
         mechanism=dict(depth=4, tour_depth=3, dev_depth=4),
     ),
     "thorough": dict(
@@ -78,6 +79,7 @@ TIERS = {
                       consts=dict(Paths={1, 2}, Handles={1, 2}, ChunkIds=CHUNKS8, Hdrs={"none", "h1", "h2"},
                                   Delims={"none", "c", "t", "s"}, Modes=MODES)),
         random=8000,
+        scale=96,
         mechanism=dict(depth=7, tour_depth=4, dev_depth=5),
     ),
 }
@@ -124,14 +126,16 @@ def variant(i, seed):
                 sched="every" if k % 4 else "sparse",
                 # the handle objects: SFile, or a bare recfile.Recfile (no header: only the calls that need none);
                 # one object per handle id opened again and again, or (1 in 5) a new object for every open
-                lib="recfile" if k % 7 == 3 else "sfile", reuse=k % 5 != 4)
+                lib="recfile" if k % 7 == 3 else "sfile", reuse=k % 5 != 4,
+                # how many rows a block token stands for (only histories with a BIG chunk): sizes around the 16 MiB boundary
+                bigkind=k % rc.BIG_KINDS)
 
 
 def exec_trace(job):
     """job = (id, events, variant dict, npaths, seed) -> record"""
     tid, events, v, npaths, seed = job
     kept, done = rc.run_trace(seed, v["fam"], events, npaths=npaths, writer=v["writer"], reader=v["reader"],
-                              sched=v["sched"], lib=v.get("lib", "sfile"), reuse=v.get("reuse", True))
+                              sched=v["sched"], lib=v.get("lib", "sfile"), reuse=v.get("reuse", True), bigkind=v.get("bigkind", 0))
     return {"id": tid, "events": kept, "v": v, "npaths": npaths, "seed": seed, "done": done}
 
 
@@ -176,7 +180,7 @@ def signature(rec, step, clauses, cls):
         c = "first_write=%s,chunk=%s,%s,object=%s" % (cls.get("fresh"), cls.get("compat"), cls.get("kind"), object_use(rec, step))
     elif op == "hread":
         c = "mode=%s,%s,sel=%s,object=%s" % (cls.get("mode"), cls.get("kind"), e.get("sel", "all"), object_use(rec, step))
-    elif op == "hclose":
+    elif op in ("hclose", "hdrop"):
         # what the handle wrote becomes observable only now: class of the chunks written through it since it was opened
         c = "writes=%s,%s,object=%s" % (handle_writes_class(rec["done"], step), cls.get("kind"), object_use(rec, step))
     else:
@@ -188,7 +192,7 @@ def still_open(done, step):
     """the handle of the open call at `step` was open when it was called"""
     h = done[step - 1]["h"]
     for e in reversed(done[:step - 1]):
-        if e["h"] == h and e["op"] == "hclose":
+        if e["h"] == h and e["op"] in ("hclose", "hdrop"):
             return False
         if e["h"] == h and e["op"] == "open":
             return e["res"]["err"] == "none" and e["res"].get("size", -1) is not None
@@ -337,7 +341,7 @@ def random_events(rng, npaths=2, nhandles=2):
             elif q < 0.85:
                 E("hread", h=h, p=open_h[h], sel=rng.choice(["all", "first", "head", "cols"]))
             else:
-                E("hclose", h=h, p=open_h[h])
+                E("hclose" if rng.random() < 0.6 else "hdrop", h=h, p=open_h[h])
                 del open_h[h]
         elif r < 0.62 and (free_h or open_h):
             # open a handle object - a new one, a closed one again, or (1 in 3) one that is still open
@@ -426,8 +430,8 @@ def run(ctx):
             # histories that end in a write through / the close of a handle (where a handle's past can show), the rest
             # to the others
             rng = random.Random(ctx.seed * 7919 + 11)
-            hot = [b for b in keep if b[-1]["op"] in ("hwrite", "hclose")]
-            cold = [b for b in keep if b[-1]["op"] not in ("hwrite", "hclose")]
+            hot = [b for b in keep if b[-1]["op"] in ("hwrite", "hclose", "hdrop")]
+            cold = [b for b in keep if b[-1]["op"] not in ("hwrite", "hclose", "hdrop")]
             nhot = min(len(hot), max(T["tour_keep"] * 6 // 10, T["tour_keep"] - len(cold)))
             keep = sorted(rng.sample(hot, nhot) + rng.sample(cold, min(len(cold), T["tour_keep"] - nhot)), key=json.dumps)
         if not keep:
@@ -480,6 +484,37 @@ def run(ctx):
         nid += len(recs)
         all_recs += recs
         ctx.note(random_sequences=len(recs))
+    # 5b. scale: histories in which one chunk is BIG (a block token: more rows than one 16 MiB I/O block holds, counter
+    # pattern, binary), written before / after small chunks through handles and path-level calls.  The law - rows
+    # concatenate, counts add (RecStore!RowCount) - is the one TLC checked on all histories; here the real code is held
+    # to it at sizes across and at the block boundary, for row sizes that do and do not divide it
+    if part("scale"):
+        C = dict(Paths={1}, Handles={1}, ChunkIds={"a", "g"}, Hdrs={"none", "h1"}, Delims={"none"}, Modes={"w", "r+"},
+                 Sels={"all"}, MaxDepth=3)
+        acts = {"open", "hwrite", "hclose", "hdrop", "create", "overwrite", "append", "appendmissing"}
+        r = ctx.tlc("RecStoreMC.tla", what="scale: histories with a BIG chunk (block token), invariants + export",
+                    cfg_text=cfg(constants=mc_constants(C, keep=True, export_at=3, acts=acts),
+                                 constraints=["BoundedHist", "Export"], invariants=["SizeInv", "ConcatInv", "ConcatHistInv"]),
+                    workers=1, coverage=False, timeout=3000)
+        behs = [b for b in dedupe(r.records.get("BEH", []))
+                if any(t >= rc.BIG_TOK for e in b for t in e["chunk"]["rows"]) and sum(1 for e in b if e["chunk"]["rows"]) >= 2]
+        if len(behs) < T["scale"]:
+            raise MachineryError("only %d scale histories exported" % len(behs))
+        rng = random.Random(ctx.seed * 15485863 + 3)
+        behs = [behs[i] for i in sorted(rng.sample(range(len(behs)), T["scale"]))]
+        # every (row-size family x block size) combination in turn
+        jobs = [(nid + i, ev, dict(variant(i, ctx.seed), fam=i % len(rc.FAMILIES),
+                                   bigkind=(i // len(rc.FAMILIES)) % rc.BIG_KINDS, sched="every"), 2, ctx.seed)
+                for i, ev in enumerate(behs)]
+        recs = quiet_pmap(exec_trace, jobs)
+        for rr in recs:
+            count_trace(ctx, rr)
+        rejects, _ = judge(ctx, recs, "judge scale histories (RecStoreTrace)")
+        ctx.log("%-40s %6d traces, %d rejected" % ("scale histories (BIG chunks)", len(recs), len(rejects)))
+        nid += len(recs)
+        all_recs += recs
+        ctx.note(scale_histories=len(recs),
+                 scale_rows=sorted({rc.big_nrows(j[2]["fam"], "D", j[2]["bigkind"]) for j in jobs}))
 
     if part("mechanism") and only:
         mechanism(ctx)
@@ -572,7 +607,7 @@ def open_paths(done):
     for e in done:
         if e["op"] == "open" and e["res"]["err"] == "none":
             h2p[e["h"]] = e["p"]
-        elif e["op"] == "hclose":
+        elif e["op"] in ("hclose", "hdrop"):
             h2p.pop(e["h"], None)
     return set(h2p.values())
 
@@ -590,7 +625,8 @@ SELFTEST_WANT = {"rows": {"rows"}, "stored_count": {"stored_count"}, "header": {
 def dimension_guard(ctx, all_recs):
     """how many executed traces exercise each added dimension (accepted writes only); none -> the run is vacuous"""
     n = {"reopened_object_then_write": 0, "reopened_while_open": 0, "partial_read_then_write": 0,
-         "bare_recfile_handle_writes": 0, "read_mode_handle_reads": 0}
+         "bare_recfile_handle_writes": 0, "read_mode_handle_reads": 0, "dropped_after_appending_write": 0,
+         "big_chunk_written": 0}
     for r in all_recs:
         used, state, hit = {}, {}, set()
         lib = r["v"].get("lib", "sfile")
@@ -604,7 +640,11 @@ def dimension_guard(ctx, all_recs):
                     used[h] = True
                 state[(h, "mode")] = e["mode"]
                 state[(h, "partial")] = False
-            elif e["op"] == "hclose":
+                state[(h, "nw")] = 0
+                state[(h, "appended")] = False
+            elif e["op"] in ("hclose", "hdrop"):
+                if e["op"] == "hdrop" and state.get((h, "nw"), 0) >= 1 and state.get((h, "appended")):
+                    hit.add("dropped_after_appending_write")
                 state[h] = "closed"
             elif e["op"] == "hread" and ok:
                 if e.get("sel", "all") != "all":
@@ -619,6 +659,12 @@ def dimension_guard(ctx, all_recs):
                 if lib == "recfile":
                     hit.add("bare_recfile_handle_writes")
                 used[h] = True
+                state[(h, "nw")] = state.get((h, "nw"), 0) + 1
+                # a write that was not the first one of the file: second through a creating handle, any through 'r+'
+                if state[(h, "nw")] >= 2 or state.get((h, "mode")) == "r+":
+                    state[(h, "appended")] = True
+        if any(t >= rc.BIG_TOK for e in r["done"] if e["res"]["err"] == "none" for t in e["chunk"]["rows"]):
+            hit.add("big_chunk_written")
         for k in hit:
             n[k] += 1
     ctx.note(dimension_traces=n)
@@ -680,8 +726,8 @@ def selftest(ctx, all_recs):
     ctx.note(selftest_corruptions=len(expect))
 
 
-MECH_REQUIRE = ["MOpen", "MWrite", "MRead", "MClose", "MPathWrite", "MPathAppend"]
-MECH_INVS = ["SizeLineInv", "CacheInv", "CppCountInv", "RowsInv", "RewriteInv", "ClosedInv", "StreamInv"]
+MECH_REQUIRE = ["MOpen", "MWrite", "MRead", "MClose", "MDrop", "MPathWrite", "MPathAppend"]
+MECH_INVS = ["SizeLineInv", "SizeAfterInv", "CacheInv", "CppCountInv", "RowsInv", "RewriteInv", "ClosedInv", "StreamInv"]
 # deviating variant -> (mechanism invariant it must violate or None, clauses RecStoreTrace must name on its behaviours,
 #                       the small alphabet in which it shows within four calls)
 MECH_DEVIATIONS = {
@@ -690,6 +736,8 @@ MECH_DEVIATIONS = {
     "FixedMissing": (None, {"unexpected_error"}, dict(ChunkIds={"a"}, Sels={"all"})),
     # one object used for a second file: open 'w'; write; open 'w' again; write
     "FixedClose": ("ClosedInv", {"file_state"}, dict(ChunkIds={"a", "n"}, Sels={"all"}, Delims={"none"}, deeper=1)),
+    # open 'w'; write; write; the handle is dropped without close: the stored count must be the total
+    "FixedSizeNow": ("SizeAfterInv", {"stored_count", "rows"}, dict(ChunkIds={"a"}, Sels={"all"}, Delims={"none"})),
     # create (3 rows); open 'r+'; partial read; write: the rows must land at the end of the file
     # (and close, after which the file is judged: one call deeper)
     "FixedSeek": ("StreamInv", {"rows", "stored_count", "file_state"}, dict(ChunkIds={"b"}, Sels={"all", "first", "cols"}, deeper=1)),
@@ -704,7 +752,7 @@ def mechanism(ctx):
     the code (a constant) must be *seen* by both.  A lead generator, never a verdict about esutil."""
     M = TIERS[ctx.tier]["mechanism"]
     base = dict(ChunkIds={"a", "b", "n", "o"}, Hdrs={"none", "h1"}, Delims={"none", "c"}, Modes=MODES, PathOps=True,
-                FixedCompat=True, FixedCount=True, FixedMissing=True, FixedClose=True, FixedSeek=True, Sels=SELS)
+                FixedCompat=True, FixedCount=True, FixedMissing=True, FixedClose=True, FixedSeek=True, FixedSizeNow=True, Sels=SELS)
 
     # the deviations need four calls to show (create; open r+; write; read through the handle): smaller alphabet, deeper
     small = dict(Hdrs={"none"}, Modes={"w", "r+"})
